@@ -120,9 +120,27 @@ def run(env) -> Result:
     nplans = [0]
     ncompiles = [0]
 
+    made = []
+
     def probe(tree, endian, align, ptr):
+        # memory hygiene of the harness: the library never frees a cstruct object on which a structure was defined (class ->
+        # generated __init__ -> code object -> default values -> their classes -> the object -> its type table -> class); emptying
+        # the type table of the two objects of a finished probe breaks that cycle (everything the queued model comparisons need
+        # has been computed by then)
+        try:
+            probe1(tree, endian, align, ptr)
+        finally:
+            for L in made:
+                try:
+                    L.cs.typedefs.clear()
+                except Exception:  # noqa: BLE001 - housekeeping only
+                    pass
+            made.clear()
+
+    def probe1(tree, endian, align, ptr):
         Li, erri = load(tree, endian=endian, align=align, compiled=False, pointer=ptr)
         Lc, errc = load(tree, endian=endian, align=align, compiled=True, pointer=ptr)
+        made.extend(L for L in (Li, Lc) if L is not None)
         sigs = ["F23"] if (align and small_unit_bits(tree)) else []
         if Li is None:
             if Lc is not None:
